@@ -3,6 +3,7 @@ import GsModel.Diff.Json
 import GsModel.Diff.Total
 import GsModel.Ops.Regen
 import GsModel.Text.Escape
+import GsModel.Text.Tags
 import GsModel.Ops.Gather
 import GsModel.Sec.Serve
 import GsModel.Params.Bind
@@ -76,6 +77,16 @@ def handleEscape (j : Json) : Json :=
   Json.mkObj [("r", Json.str "ok"), ("out", Json.str (String.ofList out)),
     ("eval", match ev with | some v => Json.str v | none => Json.null),
     ("blockEnd", Json.bool (Text.hasBlockEnd out)), ("inLine", Json.bool (Text.inLineComments out))]
+
+/-- {"op":"text.printTags","tags":[[key,value]..],"custom":s} → {"out":s,"oneToken":bool} -/
+def handlePrintTags (j : Json) : Json :=
+  let tags : List (List Char × List Char) := (Diff.J.arr j "tags").map (fun x =>
+    match x with
+    | .arr a => (((a[0]?.bind (·.getStr?.toOption)).getD "").toList, ((a[1]?.bind (·.getStr?.toOption)).getD "").toList)
+    | _ => ([], []))
+  let out := Text.Tags.printTags tags (Diff.J.str j "custom").toList
+  Json.mkObj [("r", Json.str "ok"), ("out", Json.str (String.ofList out)),
+    ("oneToken", Json.bool (Text.Tags.rawOneToken out || Text.Tags.interpOneToken out))]
 
 /-- {"op":"ops.gather","ops":[{key,method,path,id}..]} (already in sorted order) → {"kept":[[name,method,path]..]} -/
 def handleGather (j : Json) : Json :=
@@ -314,6 +325,7 @@ def handle (line : String) : Json :=
     | "diff.execute" => handleExecute j
     | "regen.exec" => handleRegen j
     | "text.escape" => handleEscape j
+    | "text.printTags" => handlePrintTags j
     | "ops.gather" => handleGather j
     | "sec.serve" => handleSec j
     | "param.bind" => handleBind j
